@@ -270,7 +270,7 @@ class CLI:
                     )
             else:
                 sys.stderr.write("Files or bucket name and prefix must be provided\n\n")
-                self.do_help()
+                self.commands['merge'].print_help()
                 return 2
         except InvalidMosCollection as e:
             sys.stderr.write(f"Error: {e}\n")
